@@ -121,7 +121,7 @@ for name, f, a, b in M:
         # on the repaired tree the findings are closed: mark them so for the duration of the trial (restored below)
         kf_saved = open(KF).read()
         open(KF, 'w').write(kf_saved.replace('"status": "open"', '"status": "fixed"'))
-        for d in ('C14-1-minusequal-subtracts', 'C14-2-basis-binop-alloc-size', 'C14-3-coopqlearning-uninit-norm'):
+        for d in ('C14-1-minusequal-subtracts', 'C14-2-basis-binop-alloc-size', 'C14-3-coopqlearning-uninit-norm', 'C14-4-scalew-empty'):
             subprocess.run(['git', '-C', REPO, 'apply', os.path.join(WT, 'fixes', d + '.diff')], check=True)
     p = os.path.join(REPO, f); s = open(p).read()
     if s.count(a) != 1:
